@@ -1,6 +1,7 @@
 (* Stage 2 of the model: value expressions with Python int semantics, circuit-generator
    commands, and the interpreter that turns a command list + concrete inputs into a trace. *)
-From Coq Require Import ZArith List Bool Zpow_facts.
+From Coq Require Import ZArith List Bool Zpow_facts Znumtheory.
+From PySnark.Base Require Import FieldZ.
 From PySnark.Model Require Import Lc.
 Import ListNotations.
 Open Scope Z_scope.
@@ -18,25 +19,13 @@ Inductive valexp :=
 | VIte (c : bexp) (a b : valexp)
 | VB2Z (b : bexp)
 with bexp :=
-| BTrue | BFalse | BNot (b : bexp) | BAnd (a b : bexp) | BOr (a b : bexp)
+| BTrue | BFalse | BIgn0 (* the initial error-suppression flag of the run (an input) *) | BNot (b : bexp) | BAnd (a b : bexp) | BOr (a b : bexp)
 | BEq (a b : valexp) | BLt (a b : valexp) | BLe (a b : valexp)
 | BBitLenLe (a : valexp) (k : Z).     (* a.bit_length() <= k *)
 
 Inductive kind := Pub | Priv.
 Inductive exn := AssertionError | ValueError | ZeroDivisionError | TypeError | RuntimeError
                | NotImplementedError | IndexError | AttributeError | StopIteration_.
-
-(* symbolic LinComb object: Python-visible value, backend wire, object identity (0 = anonymous) *)
-Record slc := { sval : valexp; wire : lc; oid : Z }.
-
-(* the runtime globals (guard, _ignore_errors, LinComb.ONE) *)
-Record gtriple := { g_guard : option slc; g_ignore : bexp; g_one : slc }.
-
-Inductive cmd :=
-| CAlloc (k : kind) (h : valexp)
-| CEmit (a b c : slc)                          (* add_constraint_unsafe: a * b = c *)
-| CRaiseIf (c : bexp) (e : exn) (unw : gtriple)  (* unw: globals once the exception has propagated to top level *)
-| COut (tag : Z) (v : valexp) (l : lc).        (* a result observed by the harness *)
 
 Definition bit_length (v : Z) : Z := if v =? 0 then 0 else Z.log2 (Z.abs v) + 1.
 
@@ -57,9 +46,10 @@ Definition wval (s : store) (v : var) : Z :=
   if v =? 0 then 1 else
   if 0 <? v then nth (Z.to_nat (v - 1)) (pubs s) 0 else nth (Z.to_nat (- v - 1)) (privs s) 0.
 
-Section Interp.
+Section Eval.
 Variable p : Z.
 Variable ins : list Z.
+Variable ign0 : bool.
 
 Fixpoint veval (s : store) (e : valexp) : Z :=
   match e with
@@ -78,12 +68,46 @@ Fixpoint veval (s : store) (e : valexp) : Z :=
   end
 with beval (s : store) (b : bexp) : bool :=
   match b with
-  | BTrue => true | BFalse => false | BNot b => negb (beval s b)
+  | BTrue => true | BFalse => false | BIgn0 => ign0 | BNot b => negb (beval s b)
   | BAnd a b => beval s a && beval s b | BOr a b => beval s a || beval s b
   | BEq a b => veval s a =? veval s b | BLt a b => veval s a <? veval s b
   | BLe a b => veval s a <=? veval s b
   | BBitLenLe a k => bit_length (veval s a) <=? k
   end.
+
+End Eval.
+
+Section WithP.
+Variable p : Z.
+
+(* an object is *coherent* when its Python-visible value is congruent, modulo the field prime, to its wire
+   evaluated on the witness -- whatever the inputs, the initial error flag and the witness store *)
+(* what the theorems assume of the modulus: it is prime and [finv] inverts (discharged for every prime in
+   Proofs/FieldOk.v via Fermat; kept as a hypothesis here so that the model does not load mathcomp) *)
+Definition field_ok : Prop := prime p /\ forall x, x mod p <> 0 -> (x * finv p x) mod p = 1.
+Definition coherent (v : valexp) (l : lc) : Prop :=
+  field_ok -> forall ins ig s, feq p (veval p ins ig s v) (eval (wval s) l).
+Definition Good (v : valexp) (l : lc) : Prop := wf l /\ coherent v l.
+
+(* symbolic LinComb object: Python-visible value, backend wire, object identity (0 = anonymous), and the
+   proof that value and wire are coherent: every LinComb the generator can build is coherent by typing (C04) *)
+Record slc := { sval : valexp; wire : lc; oid : Z; good : Good sval wire }.
+
+(* the runtime globals (guard, _ignore_errors, LinComb.ONE) *)
+Record gtriple := { g_guard : option slc; g_ignore : bexp; g_one : slc }.
+
+Inductive cmd :=
+| CAlloc (k : kind) (h : valexp)
+| CEmit (a b c : slc)                          (* add_constraint_unsafe: a * b = c *)
+| CRaiseIf (c : bexp) (e : exn) (unw : gtriple)  (* unw: globals once the exception has propagated to top level *)
+| COut (tag : Z) (v : valexp) (l : lc)         (* a plain result observed by the harness *)
+| COutLC (tag : Z) (x : slc).                  (* a LinComb / LinCombBool / LinCombFxp result *)
+
+Section Interp.
+Variable ins : list Z.
+Variable ign0 : bool.
+Notation veval := (veval p ins ign0).
+Notation beval := (beval p ins ign0).
 
 (* what the harness observes of the globals: guard wire (if any), ignore flag, ONE wire *)
 Definition gobs := (option lc * bool * lc)%type.
@@ -97,6 +121,8 @@ Record trace := {
   outs : list (Z * Z * lc);                  (* (tag, value, wire) *)
   raised : option (exn * gobs) }.
 
+(* tags 1..3 are reserved for LinComb-typed results (COutLC); a plain result can never carry them *)
+Definition plain_tag (tag : Z) : Z := if (1 <=? tag) && (tag <=? 3) then tag + 100 else tag.
 Definition step (t : trace) (c : cmd) : trace :=
   match raised t with Some _ => t | None =>
   match c with
@@ -108,11 +134,16 @@ Definition step (t : trace) (c : cmd) : trace :=
   | CRaiseIf b e u => if beval (st t) b
                       then {| st := st t; kinds := kinds t; cons := cons t; outs := outs t; raised := Some (e, obs_triple (st t) u) |}
                       else t
-  | COut tag v l => {| st := st t; kinds := kinds t; cons := cons t; outs := outs t ++ [(tag, veval (st t) v, l)]; raised := None |}
+  | COut tag v l => {| st := st t; kinds := kinds t; cons := cons t; outs := outs t ++ [(plain_tag tag, veval (st t) v, l)]; raised := None |}
+  | COutLC tag x => {| st := st t; kinds := kinds t; cons := cons t; outs := outs t ++ [(tag, veval (st t) (sval x), wire x)]; raised := None |}
   end end.
 Definition init : trace := {| st := {| pubs := []; privs := [] |}; kinds := []; cons := []; outs := []; raised := None |}.
 Definition interp (cs : list cmd) : trace := fold_left step cs init.
 End Interp.
+End WithP.
+Arguments sval {p} _. Arguments wire {p} _. Arguments oid {p} _. Arguments good {p} _.
+Arguments g_guard {p} _. Arguments g_ignore {p} _. Arguments g_one {p} _.
+Arguments CAlloc {p} _ _. Arguments CEmit {p} _ _ _. Arguments CRaiseIf {p} _ _ _. Arguments COut {p} _ _ _. Arguments COutLC {p} _ _.
 
 (* ---- digest of a trace: what the correspondence compares (see harness/impl/digest.py) ----
    order-independent inside a linear combination, zero coefficients dropped, coefficients mod p,
